@@ -79,10 +79,13 @@ CLAIMS = {
              "RELAYCLIENT suffix or an rcpthosts yes; DATA submits only with MAIL and >= 1 recipient, with exactly that sender "
              "and those records, and discards the transaction. rcpthosts() (loop contracts, unbounded): candidates are the "
              "whole domain and its dot-suffixes in order, none skipped, lower-cased first, first hit decides, errors defer. "
-             "Bounded stand-in: addrparse() localiphost substitution and length limit for arguments <= 14 bytes.",
+             "commands() (3 loop contracts, any byte stream): every line, CR LF or bare LF, is NUL-terminated and dispatched exactly "
+             "once to the first matching verb or the default, its argument inside the line. control_readfile() (loop contracts): 1 "
+             "iff the file exists and was read to its end - however empty -, 0 iff it is missing, -1 on any failure; "
+             "rcpthosts_init(): the relay gate is open only for a missing control/rcpthosts; cdb_seek() (morercpthosts.cdb): see "
+             "C11. Bounded stand-in: addrparse() localiphost substitution and length limit for arguments <= 14 bytes.",
         note="stralloc operations are recording stubs (their contracts are proved separately); constmap/cdb lookups are oracles "
-             "(list contents are configuration); commands() dispatch and bmfcheck are covered by their own proofs when listed "
-             "in evidence.",
+             "(list contents are configuration); the dispatch table in the commands() proof has three verbs plus the default.",
         design_ref="DESIGN.md section 5 C08"),
     "C01": dict(
         text="Proof (CBMC loop contracts on the unmodified qmail-queue.c main() and everything it calls in that file, every "
@@ -117,8 +120,12 @@ CLAIMS = {
              "exact key first, then successively shorter prefixes only at wildcard terminators (or the catch-all), none "
              "skipped, first hit wins, unmatched original-case tail appended, any cdb error exits QLX_CDB (deferral) and never "
              "falls through to the password file. report(): K only for exit 0, every lookup/database code defers. cdb "
-             "primitives: cdb_unpack(cdbmake_pack(x)) = x for all x; cdb_hash = fold of cdbmake_hashadd (keys <= 12 bytes, bounded).",
-        note="What the table contains is configuration (cdb_seek is an oracle in nughde_get). NOT covered: the whole-file "
+             "primitives: cdb_unpack(cdbmake_pack(x)) = x for all x; cdb_hash = fold of cdbmake_hashadd (keys <= 12 bytes, bounded). "
+             "cdb_seek()/match() (3 loop contracts, any database content, every fault): 'not found' only for an empty table, an "
+             "empty slot or after every slot was probed - a slot with the same hash but another key does not end the search; "
+             "consecutive wrapping probe walk; every read/seek failure is an error (deferral), never 'not found'.",
+        note="What the table contains is configuration (cdb_seek is an oracle in nughde_get; its own proof assumes tables of < 2^29 "
+             "slots and takes the home-slot formula from the code). NOT covered: the whole-file "
              "agreement of the database compiler with the reader (cdbmake_split/throw ordering, 'first duplicate wins' - the "
              "bounded attempt did not terminate, see DESIGN), qmail-getpw and qmail-pw2u.",
         design_ref="DESIGN.md section 5 C11"),
@@ -134,7 +141,8 @@ CLAIMS = {
              "verbatim, and the pre-authentication table holds only USER, PASS, APOP, QUIT, NOOP. Bounded stand-in: QUIT "
              "removes exactly the marked messages for <= 6 messages.",
         note="The correspondence of the start-up list with the directory (maildir_scan) is not covered; commands() (line framing and "
-             "dispatch) is not under contract; getln/scan_ulong are used through their contracts.",
+             "dispatch, shared with qmail-smtpd) is proved for a three-verb table (proof commands); RETR/TOP hand blast a freshly "
+             "initialised read buffer (pop3_top); getln/scan_ulong are used through their contracts.",
         design_ref="DESIGN.md section 5 C19"),
     "C02": dict(
         text="NARROW claim - the sequential, per-process core only. Proof (CBMC) that every queue mutation of qmail-queue "
@@ -182,16 +190,19 @@ CLAIMS = {
              "(a schedule quantifier: hand argument only); the tv computation inside main's loop is not isolated.",
         design_ref="DESIGN.md section 5 C16, section 10"),
     "C14": dict(
-        text="Proof (CBMC) on the unmodified qmail-send.c: injectbounce() (every stat/open/read/queue failure; senders <= 15 "
-             "bytes, bounded): after removing a trailing -@[] the sender #@[] means discard (nothing queued, record removed), "
-             "the empty sender means one double bounce F=#@[] T=doublebounceto, anything else one bounce F=<> T=sender; the "
-             "record is unlinked only after qmail_close reported the notice queued; read errors fail the submission. "
-             "del_dochan: every permanent failure (and only those) is recorded with addbounce before the recipient is "
-             "marked. addbounce() (bounded: recipient <= 4, report <= 8 bytes, all byte values): '<rcpt>:' line without line "
-             "break, nothing but line ends after a blank line inside an entry (report text cannot forge a recipient "
-             "paragraph), every byte written exactly once despite short writes and failures.",
-        note="Bounce loops being impossible follows from the three sender cases by a two-line hand corollary; stripvdomprepend "
-             "(virtual-domain prefix removal) and the text of the notice are not covered; qmail_close's contract is C07.",
+        text="Proof (CBMC loop contracts) on the unmodified qmail-send.c: injectbounce() (every stat/open/read/queue failure; "
+             "envelope sender of any length, record and message copies of any length): after removing a trailing -@[] the "
+             "sender #@[] means discard (nothing queued, record removed), the empty sender means one double bounce F=#@[] "
+             "T=doublebounceto, anything else one bounce F=<> T=sender; the record is unlinked only after qmail_close reported "
+             "the notice queued (qmail_close's own proof is part of this check); read errors fail the submission. "
+             "addbounce() (4 loop contracts, recipient and report of any length and content): '<rcpt>:' line without line "
+             "break, no blank line inside an entry whatever the report contains (report text cannot forge a recipient "
+             "paragraph), exactly one closing blank line, every byte written exactly once despite short writes and failures. "
+             "del_dochan: every permanent failure (and only those) is recorded with addbounce before the recipient is marked. "
+             "Bounded stand-in: stripvdomprepend (recipients <= 9 bytes): first virtualdomains match decides, prefix- removed "
+             "exactly when the recipient carries it.",
+        note="Bounce loops being impossible follows from the three sender cases by a two-line hand corollary; the text of the "
+             "notice is not covered; the stralloc stubs of the addbounce proof append without copying contents (any bytes).",
         design_ref="DESIGN.md section 5 C14"),
     "C10": dict(
         text="Proof (CBMC loop contracts on the unmodified qmail-send.c rewrite(), addresses <= 52 bytes (bounded), any number of "
@@ -205,19 +216,27 @@ CLAIMS = {
         note="What the control files list is configuration (constmap is a recording oracle in rewrite); the percent-hack "
              "round itself (cut at @, last % becomes @) is checked through the loop invariant only at the level 'the probe "
              "follows an @'; todo_do: recipients keep their order and none is dropped, duplicated or merged (each record "
-             "goes to exactly one channel list before the next is read); senderadd (VERP expansion) is not covered.",
+             "goes to exactly one channel list before the next is read); senderadd (VERP expansion) is a bounded stand-in "
+             "(<= 10 bytes); control_readfile (the reader of locals/virtualdomains) is proved with loop contracts.",
         design_ref="DESIGN.md section 5 C10"),
     "C13": dict(
-        text="PARTIAL claim. Proof (CBMC) on the unmodified qmail-local.c: qmesearch() (loop contract, ghost index; extensions "
-             "<= 63 bytes): exact name first, then -default at every dash from the longest prefix down to the bare default, "
-             "all built from the sanitised extension, none skipped, first existing wins, DEFAULT set; qmeexists(): only "
-             "regular files not writable by others, temporary/permission errors defer, x bit = forward-only; checkhome(): "
-             "writable or sticky home defers; mailprogram(): 0 continue, 99 stop-with-success, {100,64,65,70,76,77,78,112} "
-             "permanent, crash and everything else temporary.",
-        note="NOT covered: the instruction dispatch loop, 'forward only after all others succeeded', the refusal of file/"
-             "program lines in an executable .qmail, the construction of safeext (lower-casing, dot->colon) and the "
-             "Delivered-To loop check, all of which live in the 250-line main(); bouncexf and mailforward are not yet under "
-             "contract.",
+        text="Proof (CBMC) on the unmodified qmail-local.c: main() (7 loop contracts, control files, addresses and extensions of "
+             "any length; every function of the file it calls is a recording stub): the Delivered-To and Return-Path lines "
+             "contain no line break before their end and blanks/tabs/newlines of the sender are replaced in the From_ line "
+             "(hostile envelope addresses cannot inject header lines); the extension is lower-cased and every dot mapped to a "
+             "colon before the control-file search; checkhome and the Delivered-To loop check run before any instruction; "
+             "instruction lines are executed by their type (./ mailbox, | program, forward), in line order, each at most once; "
+             "file and program lines are refused when the .qmail is executable or +list was seen; nothing is executed after a "
+             "program exited 99; every forward line that was reached is forwarded, once, after everything else; success only "
+             "at the end. qmesearch() (loop contract, ghost index; extensions <= 63 bytes): exact name first, then -default at "
+             "every dash from the longest prefix down to the bare default, all built from the sanitised extension, none "
+             "skipped, first existing wins, DEFAULT set; qmeexists(): only regular files not writable by others, "
+             "temporary/permission errors defer, x bit = forward-only; checkhome(): writable or sticky home defers; "
+             "mailprogram(): 0 continue, 99 stop-with-success, {100,64,65,70,76,77,78,112} permanent, crash and everything "
+             "else temporary.",
+        note="NOT covered: the bodies of bouncexf (header scan for the own Delivered-To line) and mailforward; which byte ends a "
+             "maildir line; lower-casing itself is case_lowerb's contract. The sizing of the forward-address table in main is a "
+             "bounded stand-in (local_main_recips, .qmail <= 6 bytes); the unbounded main proof models that table generously.",
         design_ref="DESIGN.md section 5 C13"),
     "C17": dict(
         category="other",
@@ -226,7 +245,8 @@ CLAIMS = {
              "part of <= 6 bytes over all bytes but NUL and LF, quote() produces a form that a reference RFC 821 unquoter "
              "(the rule qmail-smtpd's addrparse implements) decodes to the identical bytes, with every parser-special byte "
              "inside balanced quotes and unquoted forms being dot-atoms; quote2() quotes exactly the part before the LAST @ "
-             "and appends the domain unchanged (addresses <= 9 bytes).",
+             "and appends the domain unchanged (addresses <= 9 bytes); token822_unquote() (<= 4 tokens of <= 3 bytes): output = "
+             "concatenation of the token texts, literals in brackets, comments dropped, inside the reserved size.",
         note="NOT addressed: the second half of the property - RFC 822 header address lists becoming the envelope in "
              "qmail-inject (token822_parse/token822_addrlist, headerbody, hfield): no contract within reach expresses 'the "
              "listed mailboxes' without re-implementing RFC 822, and the callback-driven parser is outside what the tool "
@@ -241,11 +261,13 @@ CLAIMS = {
              "arithmetic, allocated size = recorded capacity, failure leaves the object untouched), stralloc_catb/copyb/"
              "append (exact lengths, bytes and trailing Z inside the allocation, any n), byte_chr, byte_rchr, scan_ulong "
              "(loop contracts, any length: never read past the buffer / the first non-digit), qmail-qmtpd getlen (no "
-             "overflow, any number of digits).",
+             "overflow, any number of digits), substdio's input side (feed/get/bget) and output side (put/bput/flush/putflush/"
+             "allwrite incl. partial and interrupted writes) under loop contracts, commands() and qmail-local main() (loop "
+             "contracts, any lengths). Bounded stand-ins: the sizing of main's forward-address table (.qmail <= 6 bytes) and "
+             "token822_unquote's sizing vs. filling pass (<= 4 tokens).",
         note="The property as written (no input corrupts ANY program) is decided only for the listed functions. NOT covered: "
-             "dns.c, token822.c, headerbody.c, hfield.c, qmail-inject.c, qmail-local main, "
-             "qmail-popup, maildir.c, ipme.c, tcpto.c, control.c, getln/getln2 and substdio's own bodies (their contracts "
-             "are assumed by the proofs that call them; a substdio proof was attempted and removed, see DESIGN). "
+             "dns.c, token822_parse/addrlist, headerbody.c, hfield.c, qmail-inject.c, maildir.c, ipme.c, tcpto.c, "
+             "getln/getln2, cdbmake_* (their contracts are assumed by the proofs that call them). "
              "--conversion-check is off (qmail's digit test relies on unsigned wrap-around, which is defined behaviour).",
         design_ref="DESIGN.md section 5 C20"),
 }
